@@ -25,6 +25,29 @@ CHECKS = {
         "Trusted: num::BigRational and the harness readers. Quick tier traverses oversized pair grids with a fixed stride (recorded in evidence, exhaustive=false then); thorough covers the full grids. Unset-oneof Function operands are outside the alphabet (documented panic).",
         "bounded exhaustive enumeration of operator impl x operand pairs on the real code vs exact polynomial arithmetic",
     ),
+    "C03": (
+        "model_checking",
+        "Every function message of the C01 representation alphabet x states over a value grid x every split of the state into fixed/remaining (2^3) x every ordered two-step split (3^3 assignments) through the real partial_evaluate impls (Function and the concrete types, Constraint, RemovedConstraint); "
+        "after each step: message polynomial == exact partial evaluation, no fixed id mentioned, returned id set between the non-zero-occurring and occurring fixed ids, evaluate(remainder) == exact value at the combined state, two steps == one step. "
+        "Instances: product family (objective x active lists x removed x dependency none/single/chain) x in-bound states x all 2^4 splits x ordered two-step splits; structural comparison of every function and substituted_value, both orders and at-once compared, and the Solution of partial_evaluate+evaluate compared with the reference evaluator on the original at the combined state under every dependency-map order.",
+        "Trusted: exact-rational Poly.partial, reference evaluator (refmodel/inst.rs). All values dyadic so comparison is bit-exact. Out-of-bound and incomplete states are C05's subject.",
+        "bounded exhaustive enumeration of (message, state, split, order) on the real code vs exact partial evaluation",
+    ),
+    "C04": (
+        "model_checking",
+        "(1) Function::substitute on a function family x all 7^4 replacement maps over four keys (constant, linear, linear mentioning another replaced id, quadratic, zero, identity, absent) vs exact simultaneous composition. "
+        "(2) Instance::substitute on an instance family x first map x optional second map (chains) x states, under every iteration order of the dependency map (hook H1): every function compared as polynomial, dependency map compared, Solution compared with the original instance evaluated at the completed state; log_encode->substitute->evaluate on all bit patterns. "
+        "(3) Explicit enumeration of ALL dependency graphs on n<=3 (quick) / n<=4 (thorough, 16.7M graphs) dependents, each summing any subset of {dependents incl. itself, a valued variable, a value-less variable}, x all n! iteration orders, through the real Instance::evaluate; oracle = Kahn topological evaluation: exact values when acyclic and grounded, Err otherwise; a watchdog turns a hang into a violation.",
+        "Trusted: Poly.subst, Kahn oracle, hook H1 (sorts the bucket by key and applies the harness permutation; identity when unset). Instance-level replacements mention only remaining variables, as the property states.",
+        "exhaustive enumeration of dependency graphs x iteration orders (schedules) and of replacement maps on the real code vs reference composition",
+    ),
+    "C05": (
+        "model_checking",
+        "Two product families of instances run through the real Instance::evaluate on every state of a per-instance alphabet and compared with an independent reference evaluator: (a) all (active, removed) constraint lists up to 2+2 whose values land on every side of the 1e-6 tolerance (-1,-2e-6,-5e-7,0,5e-7,1e-6,2e-6,1; both equalities; absent/unset functions) x objectives x variable configurations; "
+        "(b) all 15 kind x bound shapes for a used and for an irrelevant variable x pre-fixed variable x dependency none/single/chain/quadratic, states on the grid, at bound edges +-5e-8 (accepted) and +-2e-7 (rejected), each variable missing, an extra undefined id. Oracle: objective, each constraint exactly once with value/equality/metadata/removal reason, both flags by the tolerance rule, reported state = given + fixed + dependent + nearest-to-zero fill, Err exactly for out-of-bound or missing used variables. Every dependency-map order is enumerated.",
+        "Flags are asserted against the rule applied to the SDK-reported values, which are themselves compared with exact values. Values exactly at bound+-1e-7 are outside the alphabet (skipped_too_close_to_threshold must be 0).",
+        "bounded exhaustive enumeration of (instance, state) on the real code vs reference evaluator",
+    ),
 }
 
 NOT_YET = "check not yet implemented in this revision of /verif (planned in DESIGN.md section 5)"
